@@ -365,6 +365,17 @@ def r9_lagged_is_reported_as_lagged(ctx):
         R.check(any(b.dominates(t, bi) for t in true_arms), "C05.R9", "close_reason:lagged-iff-flag", "Lagged is reported on the has_lagged() branch", "Lagged is not tied to has_lagged()", "%s:%d" % (b.file, st["sp"][0]))
 
 
+def r10_sub_ids_spelled_alike(ctx):
+    """the client stores the subscription id the server returned (insert_subscription) and looks notifications up by the id
+    they carry (get_request_id_by_subscription_id / process_subscription_response): no one-sided text transformation"""
+    from .common import text_transforms
+    F, R = ctx.F, ctx.R
+    M = r"^jsonrpsee_core::client::async_client::"
+    w = text_transforms(F, R, (M + r"manager::RequestManager::insert_subscription$", M + r"helpers::process_single_response$"))
+    r = text_transforms(F, R, (M + r"manager::RequestManager::get_request_id_by_subscription_id$", M + r"helpers::process_subscription_response$", M + r"(helpers::)?process_subscription_close_response$", M + r"manager::RequestManager::(unsubscribe|remove_subscription)$"))
+    R.check(w == r, "C05.R10", "sub-id-spelling:writer-reader-agree", "subscription ids are stored and looked up in the same spelling", "the client stores subscription ids transformed by %s but looks them up transformed by %s" % (sorted(w) or "nothing", sorted(r) or "nothing"), None)
+
+
 def rarr_every_element(ctx):
     """an array message is processed element by element to the end"""
     from .common import array_elements_all_processed
@@ -378,7 +389,7 @@ def rcancel_receive_is_cancel_safe(ctx):
     read_task_receive_is_cancel_safe(ctx, "C05.CANCEL")
 
 
-RULES = [r1_classifier_agreement, r2_routing, r3_lag_and_close, r4_single_unsubscribe, r5_close_messages_are_not_lossy, r6_refused_insert_is_pure, r7_classifiers_are_plain, r8_client_builder_fields, r9_lagged_is_reported_as_lagged, rarr_every_element, rcancel_receive_is_cancel_safe]
+RULES = [r1_classifier_agreement, r2_routing, r3_lag_and_close, r4_single_unsubscribe, r5_close_messages_are_not_lossy, r6_refused_insert_is_pure, r7_classifiers_are_plain, r8_client_builder_fields, r9_lagged_is_reported_as_lagged, r10_sub_ids_spelled_alike, rarr_every_element, rcancel_receive_is_cancel_safe]
 
 LEVEL_TEXT = (
     "Structural necessary conditions of the client's notification demultiplexing decided from the type-checked program: "
